@@ -37,9 +37,13 @@ def hidden_keys(v, acc):
 
 
 def printed_digest(out):
-    _, ev, problems = mapreader.read(out)
-    h = hashlib.sha1(json.dumps([[e["lvl"], e["kind"], e["key"], [v[1] for v in e["vals"]]] for e in ev]).encode()).hexdigest()
-    return h
+    """digest of the printed text apart from comments: line events plus, per line, the offset at which the value starts"""
+    acc = []
+    for part in out.split("\n@@\n"):
+        lines, ev, problems = mapreader.read(part)
+        acc.append([[e["lvl"], e["kind"], e["key"], [v[1] for v in e["vals"]]] for e in ev])
+        acc.append([(ln["valcol"] or 0) - len(ln["ws"]) for ln in lines if ln["kind"] in ("attr", "pair")])
+    return hashlib.sha1(json.dumps(acc).encode()).hexdigest()
 
 
 def run(tier):
@@ -49,12 +53,16 @@ def run(tier):
     combos = [(p, c) for p in (False, True) for c in (False, True)]
     parsers = {(p, c): (impl.Parser(include_comments=c, expand_includes=True),
                         impl.MapfileToDict(include_position=p, include_comments=c)) for p, c in combos}
-    dumps = impl.dumper()
+    dumpers = [impl.dumper(), impl.dumper(align_values=True, indent=2), impl.dumper(align_values=True, separate_complex_types=True, end_comment=True, indent=3)]
+
+    def dumps(d, n=0):
+        import copy
+        return "\n@@\n".join(dp(copy.deepcopy(d)) for dp in dumpers)
     tmp = tempfile.mkdtemp(prefix="verif_c13_")
     records, meta = [], {}
     try:
         cases = []
-        bs = c14.behaviours(1500 if quick else 8000, seed + 13, ck, max_comments=4, tag="c13docs")
+        bs = c14.behaviours(1500 if quick else 8000, seed + 13, ck, max_comments=4, tag="c13docs", mode="walk")
         for j, b in enumerate(bs):
             hist, cms = b["hist"], b["comments"]
             if any(a["a"] == "repeated" and a["key"] == "include" for a in hist):
@@ -101,7 +109,7 @@ def run(tier):
                         if api == "open":
                             d = m.transform(p.parse_file(fn2))
                         elif api == "load":
-                            with open(fn2, encoding="utf-8") as fp:
+                            with open(fn2, encoding="utf-8", newline="") as fp:      # a stream that delivers the characters as written
                                 d = m.transform(p.load(fp))
                         else:
                             d = m.transform(p.parse(text))
